@@ -24,6 +24,7 @@ import (
 	"go/token"
 	"os"
 	"path/filepath"
+	"reflect"
 	"sort"
 	"strconv"
 	"strings"
@@ -117,15 +118,17 @@ const (
 )
 
 type variable struct {
-	kind  varKind
-	n     int    // cells for kArr
-	store string // storage name (aliasing: several Go names may share one storage)
+	kind   varKind
+	n      int    // cells for kArr
+	store  string // storage name (aliasing: several Go names may share one storage)
+	narrow bool   // declared with a type narrower than uint64 (uint8 parameter): read-only here
 }
 
 type fnTrans struct {
 	p        *pkgInfo
 	fd       *ast.FuncDecl
 	vars     map[string]*variable
+	scopes   []map[string]*variable // active scope-entry snapshots, innermost last
 	out      *strings.Builder
 	retExp   func() string // return tuple expression in the current state
 	named    []string      // named results
@@ -727,12 +730,38 @@ func endsWithReturn(stmts []ast.Stmt) bool {
 	return ok
 }
 
+// snapshot is taken at every scope entry (block, branch); leave() restores it at the exit.  The stack of active
+// snapshots tells whether a name was declared before the innermost scope began.
 func (t *fnTrans) snapshot() map[string]*variable {
 	m := map[string]*variable{}
 	for k, v := range t.vars {
 		m[k] = v
 	}
+	t.scopes = append(t.scopes, m)
 	return m
+}
+
+func (t *fnTrans) leave(saved map[string]*variable) {
+	t.vars = saved
+	p := reflect.ValueOf(saved).Pointer()
+	for i := len(t.scopes) - 1; i >= 0; i-- {
+		if reflect.ValueOf(t.scopes[i]).Pointer() == p {
+			t.scopes = t.scopes[:i]
+			return
+		}
+	}
+}
+
+// shadowCheck: `name := …` where name exists.  In the scope that declared it, Go re-uses the variable; in an inner
+// scope Go declares a NEW variable that hides the outer one until the block ends — which the flat naming of this
+// translator cannot express, so such a function is rejected.
+func (t *fnTrans) shadowCheck(n ast.Node, name string) {
+	if len(t.scopes) == 0 {
+		return
+	}
+	if _, outer := t.scopes[len(t.scopes)-1][name]; outer {
+		t.fail(n, "%s := ... in an inner block hides the outer %s (block scoping is not modelled)", name, name)
+	}
 }
 
 // assign the components of a call/tuple to the LHS expressions
@@ -745,6 +774,9 @@ func (t *fnTrans) lhsName(e ast.Expr) string {
 		vv := t.lookup(e, v.Name)
 		if vv.kind != kWord && vv.kind != kBool {
 			t.fail(e, "assigning a whole array is not supported here")
+		}
+		if vv.narrow {
+			t.fail(e, "assignment to a variable narrower than 64 bits (its wrap-around is not modelled)")
 		}
 		return vv.store
 	case *ast.IndexExpr:
@@ -779,7 +811,7 @@ func (t *fnTrans) stmts(list []ast.Stmt, lvl int, rest func(lvl int)) {
 		t.stmts(v.List, lvl, func(l int) {
 			// leaving the block: drop block-local names
 			inner := t.vars
-			t.vars = saved
+			t.leave(saved)
 			_ = inner
 			next(l)
 		})
@@ -906,12 +938,22 @@ func (t *fnTrans) stmts(list []ast.Stmt, lvl int, rest func(lvl int)) {
 			fmt.Fprintf(w, "%sif %s then\n", ind(lvl), c)
 			saved := t.snapshot()
 			t.stmts(v.Body.List, lvl+1, func(int) {})
-			t.vars = saved
+			t.leave(saved)
 			fmt.Fprintf(w, "%selse\n", ind(lvl))
 			t.stmts(append(append([]ast.Stmt{}, elseList...), tail...), lvl+1, rest)
 			return
 		}
 		// merge assigned variables
+		for _, part := range [][]ast.Stmt{v.Body.List, elseList} {
+			for _, st := range part {
+				ast.Inspect(st, func(n ast.Node) bool {
+					if _, isRet := n.(*ast.ReturnStmt); isRet {
+						t.fail(n, "return nested inside a branch that does not end with it")
+					}
+					return true
+				})
+			}
+		}
 		acc := map[string]bool{}
 		t.assigned(v.Body.List, map[string]bool{}, acc)
 		t.assigned(elseList, map[string]bool{}, acc)
@@ -928,11 +970,11 @@ func (t *fnTrans) stmts(list []ast.Stmt, lvl int, rest func(lvl int)) {
 		fmt.Fprintf(w, "%slet %s := (if %s then\n", ind(lvl), pat, c)
 		saved := t.snapshot()
 		t.stmts(v.Body.List, lvl+2, func(l int) { fmt.Fprintf(w, "%s%s\n", ind(l), pat) })
-		t.vars = saved
+		t.leave(saved)
 		fmt.Fprintf(w, "%selse\n", ind(lvl+1))
 		saved = t.snapshot()
 		t.stmts(elseList, lvl+2, func(l int) { fmt.Fprintf(w, "%s%s)\n", ind(l), pat) })
-		t.vars = saved
+		t.leave(saved)
 		next(lvl)
 	case *ast.SwitchStmt:
 		if v.Init != nil || v.Tag == nil {
@@ -981,7 +1023,7 @@ func (t *fnTrans) stmts(list []ast.Stmt, lvl int, rest func(lvl int)) {
 					body = body[:len(body)-1]
 				}
 				t.stmts(body, l, func(l2 int) { fmt.Fprintf(w, "%s%s\n", ind(l2), pat) })
-				t.vars = saved
+				t.leave(saved)
 				return
 			}
 			c := clauses[i]
@@ -996,7 +1038,7 @@ func (t *fnTrans) stmts(list []ast.Stmt, lvl int, rest func(lvl int)) {
 				body = body[:len(body)-1]
 			}
 			t.stmts(body, l+1, func(l2 int) { fmt.Fprintf(w, "%s%s\n", ind(l2), pat) })
-			t.vars = saved
+			t.leave(saved)
 			fmt.Fprintf(w, "%selse\n", ind(l))
 			emit(i+1, l+1)
 		}
@@ -1029,7 +1071,7 @@ func (t *fnTrans) stmts(list []ast.Stmt, lvl int, rest func(lvl int)) {
 			t.stmts(v.Body.List, 2, func(l int) {
 				fmt.Fprintf(sub, "%s%s fuel %s\n", ind(l), name, strings.Join(live, " "))
 			})
-			t.vars = snap
+			t.leave(snap)
 			t.out = saved
 			t.aux = append(t.aux, sub.String())
 			fmt.Fprintf(w, "%s%s %d %s\n", ind(lvl), name, 1200, strings.Join(live, " "))
@@ -1055,7 +1097,7 @@ func (t *fnTrans) stmts(list []ast.Stmt, lvl int, rest func(lvl int)) {
 		t.stmts(v.Body.List, 3, func(l int) {
 			fmt.Fprintf(sub, "%s%s fuel %s\n", ind(l), name, strings.Join(live, " "))
 		})
-		t.vars = snap
+		t.leave(snap)
 		fmt.Fprintf(sub, "    else\n      some %s\n", pat)
 		t.out = saved
 		t.aux = append(t.aux, sub.String())
@@ -1263,6 +1305,8 @@ func (t *fnTrans) assign(v *ast.AssignStmt, lvl int) {
 						if id.Name != "_" {
 							if _, exists := t.vars[id.Name]; !exists {
 								t.vars[id.Name] = &variable{kind: kWord, store: t.fresh(id.Name)}
+							} else {
+								t.shadowCheck(v, id.Name)
 							}
 						}
 					}
@@ -1293,6 +1337,8 @@ func (t *fnTrans) assign(v *ast.AssignStmt, lvl int) {
 			if id.Name != "_" {
 				if _, exists := t.vars[id.Name]; !exists {
 					t.vars[id.Name] = &variable{kind: kinds[i], store: t.fresh(id.Name)}
+				} else {
+					t.shadowCheck(v, id.Name)
 				}
 			}
 		}
@@ -1355,7 +1401,7 @@ func translate(p *pkgInfo, goName string, alias []int, suffix string) string {
 			t.fail(fl, "unsupported parameter type")
 		}
 		for _, n := range fl.Names {
-			t.vars[n.Name] = &variable{kind: kWord, store: n.Name}
+			t.vars[n.Name] = &variable{kind: kWord, store: n.Name, narrow: tid.Name != "uint64"}
 			sig = append(sig, n.Name)
 		}
 	}
@@ -1628,7 +1674,7 @@ func translatePieces(p *pkgInfo, goName string) string {
 		snap := t.snapshot()
 		t.predeclare(pre)
 		declared := t.vars
-		t.vars = snap
+		t.leave(snap)
 		seen := map[string]string{}
 		for n, v := range declared {
 			if _, isParam := snap[n]; isParam {
@@ -1710,7 +1756,7 @@ func translatePieces(p *pkgInfo, goName string) string {
 			pat := tuplePat(an)
 			snap := t.snapshot()
 			t.stmts(f.Body.List, 1, func(l int) { fmt.Fprintf(t.out, "%s%s\n", ind(l), pat) })
-			t.vars = snap
+			t.leave(snap)
 			fmt.Fprintf(&sb, "def %s_loop%d_body%s : %s :=\n%s\n", name, k, params, strings.Join(at, " × "), t.out.String())
 			continue
 		}
